@@ -357,7 +357,7 @@ inline void on_cpu_budget(int) { const char m[] = "\nVF-CPU-BUDGET\n"; if (crumb
 inline void arm_cpu_budget(unsigned seconds) { struct itimerval it {}; it.it_value.tv_sec = seconds; setitimer(ITIMER_VIRTUAL, &it, nullptr); }
 
 inline int engine_main(int argc, char** argv, const char* unitName) {
-	uint64_t seed = 1; uint64_t cases = 1000; std::string out, only, replay, crumbPath; unsigned shard = 0, shards = 1; unsigned cpuBudget = 20; bool list = false, doShrink = false, thorough = false; unsigned maxSize = 100; std::string regen;
+	uint64_t seed = 1; uint64_t cases = 1000; std::string out, only, replay, crumbPath; unsigned shard = 0, shards = 1; unsigned cpuBudget = 20; bool list = false, doShrink = false, thorough = false, noSweeps = false, onlySweeps = false; unsigned maxSize = 100; std::string regen;
 	for (int i = 1; i < argc; i++) {
 		std::string a = argv[i]; auto val = [&]() { return std::string(i + 1 < argc ? argv[++i] : ""); };
 		if (a == "--seed") seed = strtoull(val().c_str(), nullptr, 10); else if (a == "--cases") cases = strtoull(val().c_str(), nullptr, 10);
@@ -365,7 +365,7 @@ inline int engine_main(int argc, char** argv, const char* unitName) {
 		else if (a == "--shard") { std::string v = val(); sscanf(v.c_str(), "%u/%u", &shard, &shards); }
 		else if (a == "--cpu") cpuBudget = static_cast<unsigned>(atoi(val().c_str())); else if (a == "--max-size") maxSize = static_cast<unsigned>(atoi(val().c_str()));
 		else if (a == "--kf") { std::string v = val(); size_t p = 0; while (p < v.size()) { size_t q = v.find(',', p); if (q == std::string::npos) q = v.size(); if (q > p) active_kf().insert(v.substr(p, q - p)); p = q + 1; } }
-		else if (a == "--tier") thorough = (val() == "thorough"); else if (a == "--list") list = true; else if (a == "--isolate") g_isolate() = true; else if (a == "--regen") regen = val(); else if (a == "--shrink") doShrink = true;
+		else if (a == "--tier") thorough = (val() == "thorough"); else if (a == "--list") list = true; else if (a == "--no-sweeps") noSweeps = true; else if (a == "--only-sweeps") onlySweeps = true; else if (a == "--isolate") g_isolate() = true; else if (a == "--regen") regen = val(); else if (a == "--shrink") doShrink = true;
 	}
 	if (seed == 0) seed = 1;
 	if (list) { for (auto& p : registry()) printf("prop\t%s\t%u\t%s\n", p.name, p.weight, p.rule); for (auto& p : sweep_registry()) printf("sweep\t%s\t%d\t%s\n", p.name, p.thoroughOnly, p.rule); return 0; }
@@ -422,6 +422,7 @@ inline int engine_main(int argc, char** argv, const char* unitName) {
 	for (auto& sw : sweep_registry()) {
 		if (!only.empty() && only != sw.name) continue;
 		if (sw.thoroughOnly && !thorough) continue;
+		if (noSweeps) continue;
 		SweepCtx& sc = sweep_stats()[sw.name]; sc.shard = shard; sc.shards = shards; sc.thorough = thorough;
 		crumb_set(cat("{\"sweep\":\"", sw.name, "\"}"));
 		sw.fn(sc);
@@ -430,6 +431,7 @@ inline int engine_main(int argc, char** argv, const char* unitName) {
 	for (auto& p : registry()) if (only.empty() || only == p.name) totalWeight += p.weight;
 	for (auto& p : registry()) {
 		if (!only.empty() && only != p.name) continue;
+		if (onlySweeps) continue;
 		PropStats& st = stats[p.name];
 		uint64_t n = std::max<uint64_t>(1, cases * p.weight / std::max(1u, totalWeight));
 		for (uint64_t i = 0; i < n; i++) {
